@@ -46,9 +46,11 @@ def s19_region(item):
             return False
         if e[0] == "bin" and e[1] == "+":
             a, b = e[2], e[3]
-            if (a[0] == "var") != (b[0] == "var") and repr(res(a)) == repr(res(b)):
+            if res(a)[0] == "sel" and decls[res(a)[1]][0] == "source":
+                pass  # two reads of one entity's .output are distinct nodes (nothing for CSE to merge)
+            elif (a[0] == "var") != (b[0] == "var") and repr(res(a)) == repr(res(b)):
                 return True
-            if a[0] != "var" and b[0] != "var" and repr(a) == repr(b):
+            elif a[0] != "var" and b[0] != "var" and repr(a) == repr(b):
                 return True
         return any(walk(x) for x in e[1:])
 
@@ -67,6 +69,8 @@ def s9_region(item):
             return True
         if e[0] == "var":
             return kinds[e[1]] == "int"
+        if e[0] == "sel":
+            return False
         return all(const(x) for x in e[1:] if isinstance(x, tuple))
 
     return any(en.get("enable") is not None and en["enable"][0] not in ("int",) and const(en["enable"])
